@@ -400,11 +400,30 @@ def guard_variant(b, g):
     return rest[0] if len(rest) == 1 else None
 
 
-def guarded_by_variant(b, site_bb, paths, variant):
-    """the block runs only when the enum value at one of `paths` (deep paths) has the given variant index"""
+def guarded_by_variant(b, site_bb, paths, variant, depth=0):
+    """the block runs only when the enum value at one of `paths` (deep paths) has the given variant index -- tested
+    directly, or through a bool that was set to a constant on each arm of such a test (`let init = x.is_some(); .. if init`)"""
     for g in guards_of(b, site_bb):
         if g[3][0] == 'discr' and deep_path(b, g[3][1]) in paths and guard_variant(b, g) == variant:
             return True
+        if g[3][0] == 'val' and depth < 3:
+            t = b.blocks[g[0]]['term']
+            l = t['discr']['place']['l'] if t['discr']['k'] in ('copy', 'move') and not t['discr']['place']['p'] else None
+            hops = 0
+            while l is not None and hops < 4:     # through plain copies of the flag
+                ds = [d for d in b.defs_of(l) if d[0] in ('stmt', 'call')]
+                if len(ds) == 1 and ds[0][0] == 'stmt' and ds[0][3]['rv']['k'] == 'use' and ds[0][3]['rv']['op']['k'] in ('copy', 'move') \
+                        and not ds[0][3]['rv']['op']['place']['p']:
+                    l = ds[0][3]['rv']['op']['place']['l']
+                    hops += 1
+                else:
+                    break
+            ds = [d for d in b.defs_of(l) if d[0] in ('stmt', 'call')] if l is not None else []
+            if len(ds) >= 2 and all(d[0] == 'stmt' and d[3]['rv']['k'] == 'use' and d[3]['rv']['op']['k'] == 'const' and 'bits' in d[3]['rv']['op'] for d in ds):
+                want_true = g[2] != 'sw:0'
+                mine = [d for d in ds if (d[3]['rv']['op']['bits'] != '0') == want_true]
+                if mine and all(guarded_by_variant(b, d[1], paths, variant, depth + 1) for d in mine):
+                    return True
     return False
 
 
@@ -477,27 +496,62 @@ def returns_is_variant(b, variant):
     return list(paths.pop()) if len(paths) == 1 else None
 
 
-def records_iff_hot_reloaded_and_reloader(b, rec_path='hot_reloading::records::record'):
-    """asset::load_and_record on the normal form: (ok, why, record call).  records::record runs exactly when
-    typ.is_hot_reloaded() is true and cache.reloader() is Some (both tested, nothing else, and then inevitably),
-    with that very reloader."""
-    rc = [c for c in b.calls() if c.callee and c.callee.best == rec_path]
-    if len(rc) != 1:
-        return False, 'shape: exactly one records::record call expected', None
-    rc = rc[0]
-    g = guards_of(b, rc.bb)
+def runs_iff_hot_reloaded_and_reloader(b, site, reloader_arg=0):
+    """(ok, why): the call `site` runs exactly when typ.is_hot_reloaded() is true and <cache>.reloader() is Some (both
+    tested, nothing else, and then inevitably), and receives that very reloader as argument `reloader_arg`"""
+    g = guards_of(b, site.bb)
     roots = {'call@bb%d' % c.bb: c.callee.best for c in b.calls() if c.callee}
     tests = []
     for x in g:
         ap = deep_path(b, x[3][1]) or ['?']
-        tests.append((x[2] != 'sw:0' if x[3][0] == 'val' else guard_variant(b, x) == 1, x[3][0], roots.get(ap[0], ap[0]) if len(ap) == 1 else '/'.join(ap)))
+        nm = roots.get(ap[0], ap[0]) if len(ap) == 1 else '/'.join(ap)
+        nm = 'reloader()' if nm.endswith('::reloader') else nm
+        tests.append((x[2] != 'sw:0' if x[3][0] == 'val' else guard_variant(b, x) == 1, x[3][0], nm))
     tests.sort(key=str)
-    want = [(True, 'discr', "anycache::AnyCache::<'a>::reloader"), (True, 'val', 'key::Type::is_hot_reloaded')]
+    want = [(True, 'discr', 'reloader()'), (True, 'val', 'key::Type::is_hot_reloaded')]
     if tests != want:
-        return False, 'the load is not recorded exactly when the type is hot-reloaded and the cache has a reloader (conditions found: %s)' % tests, rc
-    if not inevitable(b, g, rc.bb):
-        return False, 'a hot-reloaded load in a cache with a reloader can skip records::record', rc
+        return False, 'conditions found: %s (want: the type is hot-reloaded and the cache has a reloader)' % tests
+    if not inevitable(b, g, site.bb):
+        return False, 'a path on which the type is hot-reloaded and the cache has a reloader skips it'
     rl = [k for k, v in roots.items() if v.endswith('::reloader')]
-    if arg_path(rc, 0) != [rl[0], 'as:Some', '0']:
-        return False, 'records::record is not given the reloader of this cache', rc
-    return True, '', rc
+    if reloader_arg is not None and arg_path(site, reloader_arg) not in [[k, 'as:Some', '0'] for k in rl]:
+        return False, 'it is not given the reloader of this cache'
+    return True, ''
+
+
+def records_iff_hot_reloaded_and_reloader(b, rec_path='hot_reloading::records::record'):
+    """asset::load_and_record on the normal form: (ok, why, record call)"""
+    rc = [c for c in b.calls() if c.callee and c.callee.best == rec_path]
+    if len(rc) != 1:
+        return False, 'shape: exactly one records::record call expected', None
+    ok, why = runs_iff_hot_reloaded_and_reloader(b, rc[0])
+    return ok, ('the load is not recorded exactly when the type is hot-reloaded and the cache has a reloader: ' + why) if not ok else '', rc[0]
+
+
+_NEG = {'Eq': 'Ne', 'Ne': 'Eq', 'Lt': 'Ge', 'Ge': 'Lt', 'Gt': 'Le', 'Le': 'Gt'}
+_FLIP = {'Eq': 'Eq', 'Ne': 'Ne', 'Lt': 'Gt', 'Gt': 'Lt', 'Le': 'Ge', 'Ge': 'Le'}
+
+
+def comparison_guards(b, site_bb):
+    """relations that hold whenever `site_bb` runs, from guards that test a comparison `x <op> const`:
+    [(deep path of x, relation in Eq/Ne/Lt/Le/Gt/Ge, constant text, switch_bb, kept target)] (normalised so that the constant is on the right)"""
+    out = []
+    for sw, tgt, lab, tst in guards_of(b, site_bb):
+        t = b.blocks[sw]['term']
+        if t['discr']['k'] not in ('copy', 'move') or t['discr']['place']['p']:
+            continue
+        l = t['discr']['place']['l']
+        ds = [d for d in b.defs_of(l) if d[0] == 'stmt']
+        ds = [d for d in ds if d[1] == sw] or ds
+        if len(ds) != 1 or ds[0][3]['rv']['k'] != 'binop' or ds[0][3]['rv']['op'] not in _NEG:
+            continue
+        rv = ds[0][3]['rv']
+        op, a, c = rv['op'], rv['a'], rv['b']
+        if a.get('k') == 'const' and c.get('k') != 'const':
+            a, c, op = c, a, _FLIP[op]
+        if c.get('k') != 'const':
+            continue
+        if lab == 'sw:0':
+            op = _NEG[op]
+        out.append((deep_path(b, a, at=sw), op, re.sub(r'_[iu](8|16|32|64|128|size)$', '', c.get('text', '')), sw, tgt))
+    return out
